@@ -7,6 +7,11 @@ func registerAll() {
 	reg("S4", "no silent skip: every completed iteration of an apply loop issues a register write", ruleS4)
 	reg("S5", "error surfacing: errors of register writes, EncodeSlab and worker results return a non-nil error without further writes", ruleS5)
 
+	reg("S6", "sorted apply: the deterministic commit writes registers by walking, first to last, a slice returned by a collector that sorts it on every path with a comparator decided (order abstraction over the 9 address x index orderings) to be ascending (owner, index)", ruleS6)
+	reg("S7", "lookup order: write set, then read cache, then ledger; hits return the found entry; cache fill guarded by the cache flag and holds DecodeSlab of the same id", ruleS7)
+	reg("S8", "field-write ownership table of PersistentSlabStorage (who may update/delete/replace deltas, cache, counters, codecs)", ruleS8)
+	reg("S9", "observers (everything exported on PersistentSlabStorage except Store/Remove/DropDeltas/commit, and CheckStorageHealth) cannot reach a writer of the write set or of registers", ruleS9)
+
 	propTable["C14"] = &PropSpec{
 		ID:    "C14",
 		Rules: []string{"S3", "S4", "S5"},
